@@ -1,22 +1,35 @@
 (* C17 — a search pickled or interrupted at any point resumes faithfully.
-   Statements only (proofs: Searcher/Slicing.v).
+   Statements only (proofs: Searcher/Slicing.v, StepProofs.v, Resume.v, Cache.v, Pickle.v).
 
-   What a Coq theorem can carry here is the CONTROL FLOW of
-   _auto_search_rules / _expand_classes_for under an arbitrary clock: where the
-   search can be interrupted, what it answers, and where the next call picks
-   up.  That the searcher's state after k packets is the same object whether
-   or not it was pickled in between (shared lists inside ClassDB, the
-   ruledb -> searcher back-reference, ...) is behaviour of the Python runtime;
-   it is covered by the correspondence only (pickle at every k, equality,
-   identical event traces afterwards) — partial by nature, as DESIGN.md says.
+   What a Coq theorem carries here: (1) the CONTROL FLOW of _auto_search_rules /
+   _expand_classes_for under a clock that counts packets and advances by a scripted
+   non-negative amount at every has_specification() call (where the search can be
+   interrupted, what it answers, where the next call picks up), (2) the STATE
+   TRANSFORMATION: the searcher as a packet-level state machine whose time-sliced
+   drivers equal the uninterrupted iteration, (3) that (1) IS the control flow of (2)
+   (C17_control_flow_is_state_machine), (4) that enough fuel excludes the models'
+   OutOfFuel answer (C17_auto_search_fuel, C17_run_calls_fuel), (5) that every rule
+   recorded by an interrupted / resumed search is justified by the strategy table
+   (C17_resumed_search_*: the C04 conclusions for every script of calls), and (6) the
+   composition with C14 / C02 for the pruning databases: the rule stores such a search
+   leaves are those of an add_hist history and C02's _find_rule is total on them
+   (C17_resumed_search_gives_add_hist, C17_resumed_search_find_rule_total).
+   NOT a theorem: that pickle rebuilds the same object graph (Searcher/Pickle.v models
+   dump/load as the identity on the members; it is never run against pickle - the oracle
+   compares original and restored searcher member by member instead), that the rule
+   database answers is_verified / has_specification the same after a restore (the answers
+   are inputs of the models), and - beyond (6) - that the specification finally returned
+   satisfies C01/C02: closedness, one rule per class, productivity and the counts are
+   per-instance oracle verdicts only; no theorem here mentions an extracted specification.
 
    `auto_search n_avail mult maxt fuel k extra ds answers = (o, calls, extra')`:
    a call of _auto_search_rules on a searcher that has processed k packets, the
    queue running dry at n_avail packets, the j-th has_specification() call
    advancing the clock by ds_j >= 0 and answering answers_j.                  *)
 From Coq Require Import ZArith List Bool.
-From CSS Require Import Base.PyList ClassDB.Model Searcher.Model Searcher.Inv Searcher.Slicing Searcher.Step
-  Searcher.StepProofs Searcher.Cache Searcher.Pickle.
+From CSS Require Import Base.PyList ClassDB.Model ClassDB.Proofs Searcher.Model Searcher.Inv Searcher.Slicing Searcher.Step
+  Searcher.StepProofs Searcher.Resume Searcher.QueuePack Searcher.ResumeHist Searcher.Cache Searcher.Pickle.
+From CSS Require Searcher.Contracts RuleDB.Model RuleDB.AddHist RuleDB.SearchHist Spec.FindRule Spec.FindRuleProofs.
 From CSS Require Queue.Model.
 Import ListNotations.
 Open Scope Z_scope.
@@ -41,7 +54,9 @@ Proof.
   exact (resume_from n_avail mult maxt Hm fuel k extra ds answers o calls extra').
 Qed.
 
-(* SpecificationNotFound is raised only when the queue has run dry *)
+(* SpecificationNotFound is answered only at the packet count n_avail - a PARAMETER of the control-flow
+   model (where the queue runs dry).  That n_avail is the state machine's own exhaustion point is
+   C17_control_flow_is_state_machine / C17_state_machine_control_flow below. *)
 Theorem C17_notfound_only_when_exhausted :
   forall n_avail mult maxt fuel k extra ds answers kf calls extra',
   0 <= mult -> k <= n_avail -> Forall (fun d => 0 <= d) ds ->
@@ -62,6 +77,16 @@ Theorem C17_exceeded_only_past_limit :
 Proof.
   intros n_avail mult maxt fuel k extra ds answers kf calls extra' H. unfold auto_search in H.
   exact (exceeded_really n_avail mult maxt fuel k extra (k + extra) 0 ds answers [] kf calls extra' H).
+Qed.
+
+(* enough fuel excludes OutOfFuel: one more than the number of packets the queue can still hand out.
+   (Every turn of the loop that goes on processes at least one packet: exp_time >= 0 because mult >= 0
+   and the clock never runs backwards.)  With it C17_resume_from is informative for every such run. *)
+Theorem C17_auto_search_fuel : forall n_avail mult maxt fuel k extra ds answers,
+  0 <= mult -> Forall (fun d => 0 <= d) ds -> (Z.to_nat (n_avail - k) < fuel)%nat ->
+  fst (fst (auto_search n_avail mult maxt fuel k extra ds answers)) <> OutOfFuel.
+Proof.
+  intros n_avail mult maxt fuel k extra ds answers Hm. exact (auto_search_fuel n_avail mult maxt Hm fuel k extra ds answers).
 Qed.
 
 
@@ -219,6 +244,232 @@ Proof.
   intros s k n. split; [apply step_load_dump|apply pickle_anywhere].
 Qed.
 
+(* ---------------------------------------------------------------------- fuel of the state machine.
+   packets_bounded s N: whatever is done from s on, the queue hands out at most N more packets
+   (Resume.v).  A call of run_calls_st runs on fuel S (S (length hs)), hs = the has_specification
+   answers of its script; N <= S (length hs) for every call excludes OutOfFuel for the whole script,
+   so that C17_packet_count's hypothesis is a theorem for such scripts ... *)
+Theorem C17_run_calls_fuel : forall mult calls N s k extra outs s' es k' extra',
+  Inv (core s) -> packets_bounded T mode F expand_verified inferral_strategies initial_strategies expansion_strats s N ->
+  Forall (fun c : call => (N <= S (length (snd c)))%nat) calls ->
+  run_calls_st mult s k extra calls = (outs, s', es, k', extra') ->
+  Forall (fun o => fst (fst o) <> Ret OutOfFuel) outs.
+Proof. intros mult calls N s k extra outs s' es k' extra'. apply run_calls_no_out_of_fuel. Qed.
+
+(* ... and where such an N comes from: a run that has met a turn that finds the queue dry has seen every
+   packet there will ever be *)
+Theorem C17_packets_bounded_when_dry : forall s m s1 es1,
+  iterate m s = (s1, es1) -> step s1 = (s1, SDry) ->
+  packets_bounded T mode F expand_verified inferral_strategies initial_strategies expansion_strats s
+    (length (filter is_packet es1)).
+Proof. intros s m s1 es1. apply packets_bounded_of_dry. Qed.
+
+(* ---------------------------------------------------------------------- the control-flow model IS
+   the control flow of the state machine: a call of the state machine that does not die in the expansion
+   returns exactly what Slicing.auto_search returns for every n_avail that describes its queue (the packet
+   count at which it was found dry during the call; any count not below the packets processed if it was
+   not) *)
+Theorem C17_control_flow_is_state_machine : forall mult maxt n_avail fuel s k extra ds hs o calls extra' s' es,
+  0 <= mult -> Forall (fun d => 0 <= d) ds ->
+  auto_search_st T mode F expand_verified inferral_strategies initial_strategies expansion_strats
+    mult maxt fuel s k extra ds hs = (Ret o, calls, extra', s', es) ->
+  describes n_avail k es ->
+  auto_search n_avail mult maxt fuel k extra ds hs = (o, calls, extra').
+Proof.
+  intros mult maxt n_avail fuel s k extra ds hs o calls extra' s' es Hm.
+  exact (auto_search_st_refines T mode F expand_verified inferral_strategies initial_strategies expansion_strats
+           mult maxt Hm n_avail fuel s k extra ds hs o calls extra' s' es).
+Qed.
+
+(* ... so C17_resume_from / C17_notfound_only_when_exhausted / C17_exceeded_only_past_limit hold OF THE
+   STATE MACHINE, with its own exhaustion point n = k + packets processed in the place of n_avail:
+   decisions between packets at counts in [k, n]; Found only at the first true answer; Exceeded only with a
+   limit that the clock passed; NotFound only at n and right after a turn that found the queue dry *)
+Theorem C17_state_machine_control_flow : forall mult maxt fuel s k extra ds hs o calls extra' s' es,
+  0 <= mult -> Forall (fun d => 0 <= d) ds ->
+  auto_search_st T mode F expand_verified inferral_strategies initial_strategies expansion_strats
+    mult maxt fuel s k extra ds hs = (Ret o, calls, extra', s', es) ->
+  let n := k + Z.of_nat (length (filter is_packet es)) in
+  (forall x, In x calls -> k <= x <= n) /\
+  match o with
+  | Found kf => last calls k = kf /\ nth (length calls - 1) hs false = true /\
+                forall j, (j < length calls - 1)%nat -> nth j hs false = false
+  | Exceeded kf => last calls k = kf /\ (forall j, (j < length calls)%nat -> nth j hs false = false) /\
+                   exists m, maxt = Some m /\ m < kf + extra' - (k + extra)
+  | NotFound kf => last calls k = kf /\ (forall j, (j < length calls)%nat -> nth j hs false = false) /\
+                   kf = n /\ exists pre, es = pre ++ [SDry]
+  | OutOfFuel => True
+  end.
+Proof.
+  intros mult maxt fuel s k extra ds hs o calls extra' s' es Hm.
+  exact (auto_search_st_control_flow T mode F expand_verified inferral_strategies initial_strategies expansion_strats
+           mult maxt Hm fuel s k extra ds hs o calls extra' s' es).
+Qed.
+
+(* ---------------------------------------------------------------------- the C04 conclusions for EVERY
+   interrupted / resumed search.  For a search from __init__ through any script of auto_search calls (time
+   limits, clock advances, has_specification answers, is_verified answers: arbitrary; whatever the calls
+   return or raise): every ruledb.add (EvAdd) and every key stored (EvStore) among the events of __init__
+   and of every packet is justified by the strategy table w.r.t. the class database the searcher ENDS with
+   (Searcher/Inv.v: add_ok = the rule (sid, parent) is yielded by a strategy of the table on a labelled
+   class, the table has an entry for it that is not the self-equivalence, `start` is the label of the rule's
+   parent and `ends` the labels of the table's children - or the empty rule of a truly empty class;
+   store_ok = the key is (label of the parent, sorted kept children), nothing dropped unless possibly_empty).
+   This is C04_recorded_from_table / C04_no_rule_when_not_applicable / C04_stored_key_partial, which C04 states
+   for an uninterrupted packet list, carried over to the sliced / resumed runs. *)
+Theorem C17_resumed_search_rules_from_table : forall mult ans start calls outs s' es k' extra' evs,
+  run_calls_st mult (fst (init_sstate ans start)) 0 0 calls = (outs, s', es, k', extra') ->
+  (evs = snd (init_sstate ans start) \/ exists p, In (SPacket p evs) es) ->
+  let d := cdb (core s') in
+  (forall start_label ends sid parent, In (EvAdd start_label ends sid parent) evs ->
+     add_ok T d start_label ends sid parent) /\
+  (forall eqv start_label ends' sid parent, In (EvStore eqv start_label ends' sid parent) evs ->
+     store_ok T False d start_label ends' sid parent).
+Proof.
+  intros mult ans start calls outs s' es k' extra' evs H Hev d.
+  destruct (search_events_ok0 T mode F expand_verified inferral_strategies initial_strategies expansion_strats
+              False [] (fun f : False => match f with end) (fun f : False => match f with end)
+              mult ans start calls outs s' es k' extra' H (sev_in_pack_False es)) as (_ & X).
+  specialize (X evs Hev). rewrite Forall_forall in X.
+  split; intros; exact (X _ H0).
+Qed.
+
+(* ... the same from ANY state that satisfies the invariant - in particular from a state that was saved
+   and restored in between (C17_pickle_roundtrip: load (dump s) = s on the states `step` produces) *)
+Theorem C17_resumed_from_any_state_rules_from_table : forall mult calls s k extra outs s' es k' extra' p evs,
+  Inv (core s) -> run_calls_st mult s k extra calls = (outs, s', es, k', extra') ->
+  In (SPacket p evs) es ->
+  let d := cdb (core s') in
+  extends (cdb (core s)) d /\
+  (forall start_label ends sid parent, In (EvAdd start_label ends sid parent) evs ->
+     add_ok T d start_label ends sid parent) /\
+  (forall eqv start_label ends' sid parent, In (EvStore eqv start_label ends' sid parent) evs ->
+     store_ok T False d start_label ends' sid parent).
+Proof.
+  intros mult calls s k extra outs s' es k' extra' p evs I H Hin d.
+  destruct (run_calls_events_ok0 T mode F expand_verified inferral_strategies initial_strategies expansion_strats
+              False [] (fun f : False => match f with end) (fun f : False => match f with end)
+              mult calls s k extra outs s' es k' extra' I H (sev_in_pack_False es)) as (_ & X & O).
+  rewrite Forall_forall in O. specialize (O _ Hin). simpl in O. rewrite Forall_forall in O.
+  split; [exact X|]. split; intros; exact (O _ H0).
+Qed.
+
+(* labels: in the class database a resumed search ends with, equal classes share a label and different
+   classes never do; and every label given before the calls is still the label of the same class after
+   them (C04_labels / C04_labels_stable across interruptions) *)
+Theorem C17_resumed_search_labels : forall mult calls s k extra outs s' es k' extra',
+  Inv (core s) -> run_calls_st mult s k extra calls = (outs, s', es, k', extra') ->
+  let lbl := label_of Z.eqb (fun c : Z => c) in
+  (forall c1 c2 l, lbl (cdb (core s')) c1 = Some l -> lbl (cdb (core s')) c2 = Some l -> c1 = c2) /\
+  (forall c l, lbl (cdb (core s)) c = Some l -> lbl (cdb (core s')) c = Some l).
+Proof.
+  intros mult calls s k extra outs s' es k' extra' I H lbl.
+  destruct (run_calls_events_ok0 T mode F expand_verified inferral_strategies initial_strategies expansion_strats
+              False [] (fun f : False => match f with end) (fun f : False => match f with end)
+              mult calls s k extra outs s' es k' extra' I H (sev_in_pack_False es)) as ((W' & _) & X & _).
+  destruct I as (W & _).
+  split.
+  - intros c1 c2 l. exact (label_injective Z.eqb Zeqb_spec (fun c : Z => c) (fun k : Z => k) id_inv (cdb (core s')) c1 c2 l W').
+  - intros c l. exact (lbl_ext (cdb (core s)) (cdb (core s')) c l W W' X).
+Qed.
+
+Section Contracts.
+(* the strategy contracts of C04 (Searcher/Contracts.v) for the strategies the queue hands out.  That every
+   packet of a search from __init__ carries strategies of pack_of = inferral ++ initial ++ concat expansion is a
+   theorem about the C16 queue model (Searcher/QueuePack.v search_in_pack), so - unlike C04's theorems, which take
+   `packets_in pack ps` as a hypothesis on their packet list - nothing is asked of the packets here. *)
+Notation pack := (pack_of inferral_strategies initial_strategies expansion_strats).
+Hypothesis pe_contract : Contracts.pe_contract T pack. (* in-section *)
+Hypothesis sym_contract : Contracts.sym_contract T. (* in-section *)
+
+(* under the contracts, for every interrupted / resumed search from __init__: every set_empty the searcher issues
+   tells the truth, the cached emptiness of every label is the class's own answer, and the stored key drops a
+   child iff the rule is possibly_empty AND the class is truly empty (store_ok with C := True):
+   C04_set_empty_consistent / C04_empty_cache_truthful / C04_stored_key across interruptions *)
+Theorem C17_resumed_search_emptiness_truthful : forall mult ans start calls outs s' es k' extra' evs,
+  run_calls_st mult (fst (init_sstate ans start)) 0 0 calls = (outs, s', es, k', extra') ->
+  (evs = snd (init_sstate ans start) \/ exists p, In (SPacket p evs) es) ->
+  let d := cdb (core s') in
+  (forall l v, In (EvSetEmpty l v) evs -> exists c, label_of Z.eqb (fun c : Z => c) d c = Some l /\ oracle T c = v) /\
+  (forall i c b, nth_error (classes d) i = Some c -> nth_error (empties d) i = Some (Some b) -> b = oracle T c) /\
+  (forall eqv start_label ends' sid parent, In (EvStore eqv start_label ends' sid parent) evs ->
+     store_ok T True d start_label ends' sid parent).
+Proof.
+  intros mult ans start calls outs s' es k' extra' evs H Hev d.
+  assert (Forall (sev_in_pack True pack) es) as Hp.
+  { eapply Forall_impl; [|exact (search_in_pack inferral_strategies initial_strategies expansion_strats T mode F
+                                   expand_verified mult ans start calls outs s' es k' extra' H)].
+    intros [p e0| |]; simpl; auto. }
+  destruct (search_events_ok0 T mode F expand_verified inferral_strategies initial_strategies expansion_strats
+              True pack (fun _ => pe_contract) (fun _ => sym_contract)
+              mult ans start calls outs s' es k' extra' H Hp) as ((_ & E & _) & X).
+  specialize (X evs Hev). rewrite Forall_forall in X.
+  split; [|split].
+  - intros l v Hin. destruct (X _ Hin) as (c & A & B). exists c. split; [exact A|exact (B Logic.I)].
+  - intros i c b. exact (E Logic.I i c b).
+  - intros eqv sl ends' sid parent Hin. exact (X _ Hin).
+Qed.
+
+(* COMPOSITION C17 -> C14 / C02 (clause "whatever specification it finally returns satisfies C02", the part that
+   is a theorem).  Pruning databases (mode 0), table hypotheses as in C04_search_gives_add_hist (the two contracts,
+   unary symmetries, twoway_faithful rule objects).  For EVERY script of auto_search calls from __init__ - any
+   time limits, clock, answers, whatever the calls return or raise, i.e. for every interrupted and resumed
+   search - the class database and the key sets of the two rule stores of the searcher are those of a RuleDB
+   state reached by an add_hist history (every ruledb.add made under add_pre), and the emptiness cache is
+   truthful: the hypothesis of C02_find_rule_total and of the C14 lookup theorems holds of every such state ... *)
+Theorem C17_resumed_search_gives_add_hist : forall mult ans start calls outs s' es k' extra',
+  (mode =? 0) = true -> Contracts.sym_unary T ->
+  (forall sid0 c0 r, In r (rules_from_strategy T sid0 c0) -> AddHist.twoway_faithful T r) ->
+  run_calls_st mult (fst (init_sstate ans start)) 0 0 calls = (outs, s', es, k', extra') ->
+  exists a, AddHist.add_hist T a /\
+    RuleDB.Model.b_cdb RuleDB.Model.dstore a = cdb (core s') /\
+    RuleDB.Model.d_keys (RuleDB.Model.b_r RuleDB.Model.dstore a) = rstore (core s') /\
+    RuleDB.Model.d_keys (RuleDB.Model.b_e RuleDB.Model.dstore a) = estore (core s') /\
+    EmptyOK (fun k : Z => k) (oracle T) (cdb (core s')).
+Proof.
+  intros mult ans start calls outs s' es k' extra' Hm Hu Hf H.
+  destruct (resumed_search_gives_add_hist T mode pack Hu Hf pe_contract sym_contract F expand_verified
+              inferral_strategies initial_strategies expansion_strats mult ans start calls outs s' es k' extra' Hm H
+              (search_in_pack inferral_strategies initial_strategies expansion_strats T mode F expand_verified
+                 mult ans start calls outs s' es k' extra' H)) as (a & l & A & B).
+  exists a. split; [exact (SearchHist.add_hist_l_hist T l a A)|exact B].
+Qed.
+
+(* ... hence SpecificationRuleExtractor._find_rule (C02's model, Spec/FindRule.v) is total on the rule database an
+   interrupted / resumed search leaves: every key of rule_to_strategy and every key of eqv_rule_to_strategy (both
+   ways) is turned back into a rule filed under exactly that key.  C02_search_find_rule_total for every script of
+   calls (without its clause on the edges handed to the equivalence database).  Further table hypotheses as there:
+   a strategy with a two-way entry can be an equivalence (cap), two-way entries are reversible. *)
+Theorem C17_resumed_search_find_rule_total : forall (cap : Z -> bool) mult ans start calls outs s' es k' extra',
+  (mode =? 0) = true -> Contracts.sym_unary T ->
+  (forall sid0 c0 r, In r (rules_from_strategy T sid0 c0) -> AddHist.twoway_faithful T r) ->
+  (forall sid c e, entry_of T sid c = Some e -> e_two_way e = true -> cap sid = true) ->
+  (forall sid c e, entry_of T sid c = Some e -> e_two_way e = true -> e_reversible e = true) ->
+  run_calls_st mult (fst (init_sstate ans start)) 0 0 calls = (outs, s', es, k', extra') ->
+  let s := core s' in
+  let d := cdb s in
+  exists a, AddHist.add_hist T a /\ RuleDB.Model.b_cdb RuleDB.Model.dstore a = d /\
+    RuleDB.Model.d_keys (RuleDB.Model.b_r RuleDB.Model.dstore a) = rstore s /\
+    RuleDB.Model.d_keys (RuleDB.Model.b_e RuleDB.Model.dstore a) = estore s /\
+  let fr := FindRule.find_rule T cap (FindRule.dict_lookup (RuleDB.Model.b_r RuleDB.Model.dstore a))
+              (FindRule.dict_lookup (RuleDB.Model.b_e RuleDB.Model.dstore a)) d in
+  (forall p cs0, In (p, cs0) (rstore s) ->
+     exists f, fr p cs0 = (d, inl f) /\ FindRuleProofs.form_key T d f = Some (p, cs0)) /\
+  (forall p cs0, In (p, cs0) (estore s) ->
+     exists c, cs0 = [c] /\
+     ((forall C, label_of Z.eqb (fun c : Z => c) d C = Some c -> oracle T C = false) ->
+      exists f, fr p [c] = (d, inl f) /\ FindRuleProofs.form_key T d f = Some (p, [c])) /\
+     ((forall C, label_of Z.eqb (fun c : Z => c) d C = Some p -> oracle T C = false) ->
+      exists f', fr c [p] = (d, inl f') /\ FindRuleProofs.form_key T d f' = Some (c, [p]))).
+Proof.
+  intros cap mult ans start calls outs s' es k' extra' Hm Hu Hf Hcap Hrev H.
+  exact (resumed_search_find_rule_total T mode pack Hu Hf pe_contract sym_contract F expand_verified
+           inferral_strategies initial_strategies expansion_strats cap mult ans start calls outs s' es k' extra' Hm Hcap Hrev H
+           (search_in_pack inferral_strategies initial_strategies expansion_strats T mode F expand_verified
+              mult ans start calls outs s' es k' extra' H)).
+Qed.
+End Contracts.
+
 End StateMachine.
 
 (* (c) the derived cache of RuleDBBase (Searcher/Cache.v): for every rule store type R,
@@ -350,6 +601,202 @@ Example C17_nonvacuous_machine :
   classes (cdb (core s')) = [0; 2; 1; 3] /\ stat (core s') = Running.
 Proof. vm_compute. repeat split; reflexivity. Qed.
 
+
+(* ------------------------------------------------------------------------
+   NON-VACUITY of the fuel theorems, the refinement and the C04 corollaries: all applied to the machine of
+   C17_nonvacuous_machine (a call interrupted after 1 packet, then one that exhausts the queue after 7). *)
+
+(* covers C17_auto_search_fuel: 9 packets available from k = 0: fuel 10 suffices whatever the script ... *)
+Example C17_auto_search_fuel_nonvacuous :
+  fst (fst (auto_search 9 2 None 10 0 0 [1; 2; 1; 1] [false; false; false; false; false])) <> OutOfFuel.
+Proof. apply C17_auto_search_fuel; [lia|exact ds_nonneg_3|vm_compute; lia]. Qed.
+(* ... and the bound is tight: with one packet per slice, n_avail - k turns go on and one more ends the call *)
+Example C17_auto_search_fuel_tight :
+  auto_search 3 1 None 3 0 0 [] [] = (OutOfFuel, [1; 2; 3], 0) /\
+  auto_search 3 1 None 4 0 0 [] [] = (NotFound 3, [1; 2; 3; 3], 0).
+Proof. split; vm_compute; reflexivity. Qed.
+
+(* (notations, not definitions: the instances below are then syntactically the theorems' statements) *)
+Notation ex17_s0 := (fst (init_sstate ex17_table 0 20 [2] [] [[1]] (repeat false 40) 0)).
+Definition ex17_calls : list call := [(Some 1, [2; 1], repeat false 6); (None, repeat 0 7, repeat false 7)].
+Notation ex17_run := (run_calls_st ex17_table 0 20 false [2] [] [[1]] 2 ex17_s0 0 0 ex17_calls).
+Definition ex17_outs := let '(outs, _, _, _, _) := ex17_run in outs.
+Definition ex17_final : sstate := let '(_, s', _, _, _) := ex17_run in s'.
+Definition ex17_events : list sevent := let '(_, _, es, _, _) := ex17_run in es.
+Lemma ex17_run_eq : exists k' x', ex17_run = (ex17_outs, ex17_final, ex17_events, k', x').
+Proof.
+  unfold ex17_outs, ex17_final, ex17_events.
+  destruct (run_calls_st _ _ _ _ _ _ _ _ _ _ _ _) as [[[[o s] e] k] x]. eauto.
+Qed.
+Lemma ex17_s0_inv : Inv ex17_table False Gtriv (core ex17_s0).
+Proof. exact (proj1 (C17_reachable ex17_table 0 20 false [2] [] [[1]] (repeat false 40) 0 0)). Qed.
+
+(* the queue of this machine hands out 7 packets and is then dry: C17_packets_bounded_when_dry applied *)
+Lemma ex17_bounded : packets_bounded ex17_table 0 20 false [2] [] [[1]] ex17_s0 7.
+Proof.
+  pose proof (C17_packets_bounded_when_dry ex17_table 0 20 false [2] [] [[1]] ex17_s0 8
+                (fst (iterate ex17_table 0 20 false [2] [] [[1]] 8 ex17_s0))
+                (snd (iterate ex17_table 0 20 false [2] [] [[1]] 8 ex17_s0))) as H.
+  assert (length (filter is_packet (snd (iterate ex17_table 0 20 false [2] [] [[1]] 8 ex17_s0))) = 7%nat) as E
+    by (vm_compute; reflexivity).
+  rewrite E in H. apply H.
+  - destruct (iterate ex17_table 0 20 false [2] [] [[1]] 8 ex17_s0); reflexivity.
+  - vm_compute; reflexivity.
+Qed.
+
+(* covers C17_run_calls_fuel (and makes C17_packet_count's hypothesis a theorem for this script): every call
+   has at least 6 = N - 1 answers *)
+Example C17_run_calls_fuel_nonvacuous :
+  Forall (fun o => fst (fst o) <> Ret OutOfFuel) ex17_outs /\
+  map (fun o => fst (fst o)) ex17_outs = [Ret (Exceeded 1); Ret (NotFound 7)].
+Proof.
+  split; [|vm_compute; reflexivity].
+  destruct ex17_run_eq as (k' & x' & E).
+  assert (Forall (fun c : call => (7 <= S (length (snd c)))%nat) ex17_calls) as Hc
+    by (repeat constructor; simpl; lia).
+  exact (C17_run_calls_fuel ex17_table 0 20 false [2] [] [[1]] 2 ex17_calls 7 _ 0 0 ex17_outs ex17_final
+           ex17_events k' x' ex17_s0_inv ex17_bounded Hc E).
+Qed.
+(* a script with too few answers for the bound (2 answers, fuel 4, but the call makes 8 turns) does run out *)
+Example C17_run_calls_fuel_near_miss :
+  let '(outs, _, _, _, _) := run_calls_st ex17_table 0 20 false [2] [] [[1]] 2 ex17_s0 0 0 [(None, [], [false; false])] in
+  map (fun o => fst (fst o)) outs = [Ret OutOfFuel].
+Proof. vm_compute; reflexivity. Qed.
+
+(* covers C17_control_flow_is_state_machine / C17_state_machine_control_flow: the unlimited call on this machine
+   ends NotFound after 7 packets and a dry turn; n_avail = 7 describes its queue; the control-flow model run with
+   n_avail = 7 returns the same outcome, decision points and clock *)
+Example C17_control_flow_is_state_machine_nonvacuous :
+  auto_search 7 2 None 10 0 0 (repeat 0 7) (repeat false 9) = (NotFound 7, [1; 2; 3; 4; 5; 6; 7; 7], 0).
+Proof.
+  pose (r := auto_search_st ex17_table 0 20 false [2] [] [[1]] 2 None 10 ex17_s0 0 0 (repeat 0 7) (repeat false 9)).
+  apply (C17_control_flow_is_state_machine ex17_table 0 20 false [2] [] [[1]] 2 None 7 10 ex17_s0 0 0 (repeat 0 7)
+           (repeat false 9) (NotFound 7) [1; 2; 3; 4; 5; 6; 7; 7] 0 (snd (fst r)) (snd r)).
+  - lia.
+  - repeat constructor; lia.
+  - vm_compute; reflexivity.
+  - vm_compute; reflexivity.
+Qed.
+Example C17_state_machine_control_flow_nonvacuous :
+  (forall x, In x [1; 2; 3; 4; 5; 6; 7; 7] -> 0 <= x <= 7) /\ 7 = 0 + 7.
+Proof.
+  pose (r := auto_search_st ex17_table 0 20 false [2] [] [[1]] 2 None 10 ex17_s0 0 0 (repeat 0 7) (repeat false 9)).
+  assert (r = (Ret (NotFound 7), [1; 2; 3; 4; 5; 6; 7; 7], 0, snd (fst r), snd r)) as E by (vm_compute; reflexivity).
+  pose proof (C17_state_machine_control_flow ex17_table 0 20 false [2] [] [[1]] 2 None 10 ex17_s0 0 0 (repeat 0 7)
+                (repeat false 9) (NotFound 7) [1; 2; 3; 4; 5; 6; 7; 7] 0 (snd (fst r)) (snd r)
+                ltac:(lia) ltac:(repeat constructor; lia) E) as (A & _ & _ & B & _).
+  split; [exact A|]. replace (Z.of_nat (length (filter is_packet (snd r)))) with 7 in B by (vm_compute; reflexivity).
+  exact B.
+Qed.
+
+(* covers C17_resumed_search_rules_from_table: the first packet of the interrupted-and-resumed run records
+   ruledb.add(0, (1,), strategy 2 on class 0) and stores the equivalence key (0, (1,)); both are justified by
+   the table w.r.t. the class database the two calls leave *)
+Definition ex17_first_packet_events : list event :=
+  [EvSetEmpty 1 false; EvQAdd 1; EvAdd 0 [1] 2 0; EvEdge true 0 1; EvStore true 0 [1] 2 0;
+   EvQNotInf 0; EvQNotInf 1; EvQNotInf 0].
+Example C17_resumed_search_rules_from_table_nonvacuous :
+  add_ok ex17_table (cdb (core ex17_final)) 0 [1] 2 0 /\
+  store_ok ex17_table False (cdb (core ex17_final)) 0 [1] 2 0.
+Proof.
+  destruct ex17_run_eq as (k' & x' & E).
+  destruct (C17_resumed_search_rules_from_table ex17_table 0 20 false [2] [] [[1]] 2 (repeat false 40) 0 ex17_calls
+              ex17_outs ex17_final ex17_events k' x' ex17_first_packet_events E) as (A & B).
+  - right. exists (mkP 0 [2] true). vm_compute. left. reflexivity.
+  - split; [apply A|apply (B true)]; vm_compute; auto 10.
+Qed.
+(* ... the events of __init__ are covered too (here: classqueue.add(0) only - no rule) *)
+Example C17_resumed_search_init_events : snd (init_sstate ex17_table 0 20 [2] [] [[1]] (repeat false 40) 0) = [EvQAdd 0].
+Proof. vm_compute; reflexivity. Qed.
+
+(* covers C17_resumed_from_any_state_rules_from_table and C17_resumed_search_labels, from the state the FIRST call
+   left (one packet processed, interrupted): the second call alone, started there *)
+Notation ex17_s1 := (fst (iterate ex17_table 0 20 false [2] [] [[1]] 1 ex17_s0)).
+Notation ex17_run2 := (run_calls_st ex17_table 0 20 false [2] [] [[1]] 2 ex17_s1 1 2 [(None, repeat 0 7, repeat false 7)]).
+Definition ex17_final2 : sstate := let '(_, s', _, _, _) := ex17_run2 in s'.
+Definition ex17_events2 : list sevent := let '(_, _, es, _, _) := ex17_run2 in es.
+Lemma ex17_run2_eq : exists outs k' x', ex17_run2 = (outs, ex17_final2, ex17_events2, k', x').
+Proof.
+  unfold ex17_final2, ex17_events2.
+  destruct (run_calls_st _ _ _ _ _ _ _ _ _ _ _ _) as [[[[o s] e] k] x]. eauto.
+Qed.
+Lemma ex17_s1_inv : Inv ex17_table False Gtriv (core ex17_s1).
+Proof. exact (proj2 (C17_reachable ex17_table 0 20 false [2] [] [[1]] (repeat false 40) 0 1)). Qed.
+Example C17_resumed_from_any_state_nonvacuous :
+  add_ok ex17_table (cdb (core ex17_final2)) 0 [2; 1] 1 0 /\
+  (forall c, label_of Z.eqb (fun c : Z => c) (cdb (core ex17_final2)) c = Some 1 -> c = 2) /\
+  label_of Z.eqb (fun c : Z => c) (cdb (core ex17_final2)) 2 = Some 1.
+Proof.
+  destruct ex17_run2_eq as (outs & k' & x' & E).
+  pose proof (C17_resumed_search_labels ex17_table 0 20 false [2] [] [[1]] 2 _ _ 1 2 outs ex17_final2 ex17_events2 k' x'
+                ex17_s1_inv E) as (L1 & L2).
+  assert (label_of Z.eqb (fun c : Z => c) (cdb (core ex17_final2)) 2 = Some 1) as H2
+    by (apply L2; vm_compute; reflexivity).
+  split; [|split; [intros c Hc; exact (L1 c 2 1 Hc H2)|exact H2]].
+  destruct (C17_resumed_from_any_state_rules_from_table ex17_table 0 20 false [2] [] [[1]] 2 _ _ 1 2 outs ex17_final2
+              ex17_events2 k' x' (mkP 0 [1] false)
+              [EvSetEmpty 2 false; EvQAdd 2; EvSetEmpty 1 false; EvQAdd 1; EvAdd 0 [2; 1] 1 0; EvStore false 0 [1; 2] 1 0]
+              ex17_s1_inv E) as (_ & A & _).
+  - vm_compute. left. reflexivity.
+  - apply A. vm_compute. auto 10.
+Qed.
+
+(* covers C17_resumed_search_emptiness_truthful: ex17_table honours both contracts (no class is empty, no symmetry) *)
+Lemma ex17_oracle_false : forall k, oracle ex17_table k = false.
+Proof.
+  intros k. unfold oracle. destruct (k <? 0); [reflexivity|].
+  destruct (Z.to_nat k) as [|[|[|[|[|n]]]]]; reflexivity.
+Qed.
+Lemma ex17_pe_contract : Contracts.pe_contract ex17_table (pack_of [2] [] [[1]]).
+Proof. intros sid c e _ _ _ k _. apply ex17_oracle_false. Qed.
+Lemma ex17_sym_contract : Contracts.sym_contract ex17_table.
+Proof. intros sid c r c0 rest H. destruct H. Qed.
+Example C17_resumed_search_emptiness_truthful_nonvacuous :
+  (exists c, label_of Z.eqb (fun c : Z => c) (cdb (core ex17_final)) c = Some 1 /\ oracle ex17_table c = false) /\
+  store_ok ex17_table True (cdb (core ex17_final)) 0 [1] 2 0.
+Proof.
+  destruct ex17_run_eq as (k' & x' & E).
+  destruct (C17_resumed_search_emptiness_truthful ex17_table 0 20 false [2] [] [[1]] ex17_pe_contract ex17_sym_contract
+              2 (repeat false 40) 0 ex17_calls ex17_outs ex17_final ex17_events k' x' ex17_first_packet_events E)
+    as (A & _ & B).
+  - right. exists (mkP 0 [2] true). vm_compute. left. reflexivity.
+  - split; [apply (A 1 false)|apply (B true)]; vm_compute; auto 10.
+Qed.
+
+(* covers C17_resumed_search_gives_add_hist / C17_resumed_search_find_rule_total: ex17_table has no symmetry and no
+   factory (so sym_unary and twoway_faithful hold: SearchHist.items_plain_faithful), its two-way entries are
+   reversible and every strategy may be an equivalence; the interrupted-and-resumed run ends with the keys
+   (0, (1, 2)) in rule_to_strategy and (0, (1,)), ... in eqv_rule_to_strategy, and _find_rule finds them again *)
+Lemma ex17_sym_unary : Contracts.sym_unary ex17_table.
+Proof. intros sid c r cs H. destruct H. Qed.
+Lemma ex17_faithful : forall sid0 c0 r, In r (rules_from_strategy ex17_table sid0 c0) -> AddHist.twoway_faithful ex17_table r.
+Proof. apply SearchHist.items_plain_faithful. reflexivity. Qed.
+Lemma ex17_reversible : forall sid c e, entry_of ex17_table sid c = Some e -> e_two_way e = true -> e_reversible e = true.
+Proof.
+  intros sid c e H Htw. unfold entry_of, strat_of in H. destruct (sid <? 0); [discriminate|].
+  destruct (Z.to_nat sid) as [|[|[|n]]]; simpl in H; try (destruct n; discriminate);
+    repeat match type of H with context [if ?b then _ else _] => destruct b end; try discriminate;
+    injection H as <-; simpl in Htw |- *; congruence.
+Qed.
+Example C17_resumed_search_find_rule_total_nonvacuous :
+  In (0, [1; 2]) (rstore (core ex17_final)) /\ In (0, [1]) (estore (core ex17_final)) /\
+  exists a, AddHist.add_hist ex17_table a /\
+    RuleDB.Model.b_cdb RuleDB.Model.dstore a = cdb (core ex17_final) /\
+    (exists f, FindRule.find_rule ex17_table (fun _ => true) (FindRule.dict_lookup (RuleDB.Model.b_r RuleDB.Model.dstore a))
+                 (FindRule.dict_lookup (RuleDB.Model.b_e RuleDB.Model.dstore a)) (cdb (core ex17_final)) 0 [1; 2]
+               = (cdb (core ex17_final), inl f) /\ FindRuleProofs.form_key ex17_table (cdb (core ex17_final)) f = Some (0, [1; 2])).
+Proof.
+  assert (In (0, [1; 2]) (rstore (core ex17_final))) as H1 by (vm_compute; left; reflexivity).
+  assert (In (0, [1]) (estore (core ex17_final))) as H2 by (vm_compute; left; reflexivity).
+  split; [exact H1|split; [exact H2|]].
+  destruct ex17_run_eq as (k' & x' & E).
+  destruct (C17_resumed_search_find_rule_total ex17_table 0 20 false [2] [] [[1]] ex17_pe_contract ex17_sym_contract
+              (fun _ => true) 2 (repeat false 40) 0 ex17_calls ex17_outs ex17_final ex17_events k' x'
+              eq_refl ex17_sym_unary ex17_faithful (fun _ _ _ _ _ => eq_refl) ex17_reversible E)
+    as (a & A & B & _ & _ & R1 & _).
+  exists a. split; [exact A|split; [exact B|exact (R1 0 [1; 2] H1)]].
+Qed.
+
 Print Assumptions C17_resume_from.
 Print Assumptions C17_notfound_only_when_exhausted.
 Print Assumptions C17_exceeded_only_past_limit.
@@ -367,3 +814,14 @@ Print Assumptions C17_pickle_roundtrip.
 Print Assumptions C17_pickle_commutes.
 Print Assumptions C17_cache_transparent.
 Print Assumptions C17_cache_invariant.
+Print Assumptions C17_auto_search_fuel.
+Print Assumptions C17_run_calls_fuel.
+Print Assumptions C17_packets_bounded_when_dry.
+Print Assumptions C17_control_flow_is_state_machine.
+Print Assumptions C17_state_machine_control_flow.
+Print Assumptions C17_resumed_search_rules_from_table.
+Print Assumptions C17_resumed_from_any_state_rules_from_table.
+Print Assumptions C17_resumed_search_labels.
+Print Assumptions C17_resumed_search_emptiness_truthful.
+Print Assumptions C17_resumed_search_gives_add_hist.
+Print Assumptions C17_resumed_search_find_rule_total.
